@@ -144,12 +144,14 @@ def r2_fake_drop(L, repo):
             raise AnalysisError("verify_cmd does not fold: %s" % ex)
     nums = (-5, -1, 0, 1, 7)
     n = 0
+    # the state left by earlier commands: distinctive integers (a handler that adds to it, or keeps part of it, shows)
+    OLD_AMT, OLD_PER = 1000003, 1000033
     for argc in (1, 2):
         pers = (-3, -1, 0, 1, 2, 51) if argc == 2 else (None,)
         for num in nums:
             for per in pers:
                 req = ["FAKE_DROP", str(num)] + ([str(per)] if per is not None else [])
-                env = {REQ: list(req), "self.burst_drop_amount": "<old amount>", "self.burst_drop_period": "<old period>"}
+                env = {REQ: list(req), "self.burst_drop_amount": OLD_AMT, "self.burst_drop_period": OLD_PER}
                 e = Ev(repo, mod, env=env, self_cls=ci0)
                 e.hooks = {"self.ctrl_if.verify_cmd": verify}
                 try:
@@ -162,7 +164,7 @@ def r2_fake_drop(L, repo):
                 if valid:
                     want = (0, (num, 1 if per is None else per))
                 else:
-                    want = (-1, ("<old amount>", "<old period>"))
+                    want = (-1, (OLD_AMT, OLD_PER))
                 n += 1
                 L.require("C18.R2", F, fn, "FAKE_DROP %s: status and drop state afterwards (invalid arguments: -1 and state unchanged)" % " ".join(req[1:]),
                           want, (ret, state), line=fd.lineno)
